@@ -87,6 +87,24 @@ impl DocumentBuilder {
         // the namespace URI is an attribute value like any other: references are
         // decoded and whitespace is normalized
         let namespace_uri = parse_attribute(namespace_uri.as_str().into(), namespace_uri.start())?;
+        // the prefix xmlns cannot be declared, and no other prefix than xml can be
+        // bound to the XML namespace, nor anything to the xmlns namespace
+        // https://www.w3.org/TR/xml-names/#xmlReserved
+        const XML_NAMESPACE: &str = "http://www.w3.org/XML/1998/namespace";
+        const XMLNS_NAMESPACE: &str = "http://www.w3.org/2000/xmlns/";
+        let reserved = prefix == "xmlns"
+            || (prefix != "xml" && namespace_uri == XML_NAMESPACE)
+            || namespace_uri == XMLNS_NAMESPACE;
+        if reserved {
+            let attr_name = if prefix.is_empty() {
+                "xmlns".to_string()
+            } else {
+                format!("xmlns:{}", prefix)
+            };
+            return Err(ParseError::InvalidNamespaceDeclaration(
+                attr_name, name_span,
+            ));
+        }
         let prefix_id = xot.prefix_lookup.get_id_mut(prefix);
         let namespace_id = xot.namespace_lookup.get_id_mut(namespace_uri.as_ref());
         let namespaces = &mut self.element_builder.as_mut().unwrap().namespaces;
